@@ -430,7 +430,7 @@ EXTRA_TEXT = {
  "C09": "Every reconstruction compares the share objects before and after the call and uses them a second time (inputs are values). Polynomials whose constant term makes the Horner evaluation at the chosen index add a point to itself (the same element in two representations), and the negated share value, are among the Eval / Check cases. Qualifying sets of 21, 24, 33 and 64 members (products of abscissae beyond 2^63) and 12 members with indices near 64 are reconstructed in both groups.",
  "C11": "Decoding into a used receiver is run for receivers that came to their value by decoding, scalar multiplication (Jacobian), addition, negation, and for Null() on a used point, with the identity among the decoded elements. An affine receiver (decoded, or the generator) is used as the destination of an in-place sum and then encoded, decoded, cloned and doubled.",
  "C15": "The harness looks at the frames only after the whole stream has been read (a frame handed out must stay what it was while later frames are read). The write loop is modelled over a transport that takes any positive number of bytes per call and proved to emit the whole frame (C15_writer_short_writes); the real writer runs over such a transport (every boundary of short frames, boundaries near both ends of longer ones, one byte at a time); two connections are read at the same time, one interrupted inside its length prefix while the other is read (prefixes that differ in every byte).",
- "C17": "(c) Models/ConnTable.v - callHandler's table of dialled connections and receiveHandler's table of accepted ones, connections ending and their removal announcements processed at any later time: in every reachable state a table entry names a connection to that very peer in that table's direction, alive or with its removal announced (C17_tables_invariant); a request goes out on a connection dialled to THAT peer, a reply on the connection accepted from the requester (C17_request_uses_own_connection, C17_reply_uses_requesters_connection); once the announcements are processed the tables hold live connections only and a peer that went away leaves no entry, so the next request dials afresh (C17_settled_tables_live, C17_peer_gone_tables_clean); the variant that announces to the wrong channel is refuted (C17_wrong_channel_refuted). Tie: histories of requests in both directions, peers going away and coming back at new addresses, and stray replies against one real server and three real peers, after each event the size of the accepted table, the number of dialled connections as counted by the peers, and the class of what happened (handed to a live connection / dialled / dial failed / accepted / no client) compared with the extracted model. Responders answer every tenth request with a 640 000-byte reply; at the end of every scenario the node and the responders leave (tear-down must not crash). The event-level runs judge on their own that a pending request whose reply has arrived returns that reply even when its caller starts waiting only afterwards; a request and a reply whose every field is at its default (empty payload) are part of the fault-free scenarios.",
+ "C17": "(c) Models/ConnTable.v - callHandler's table of dialled connections and receiveHandler's table of accepted ones, connections ending and their removal announcements processed at any later time: in every reachable state a table entry names a connection to that very peer in that table's direction, alive or with its removal announced (C17_tables_invariant); a request goes out on a connection dialled to THAT peer, a reply on the connection accepted from the requester (C17_request_uses_own_connection, C17_reply_uses_requesters_connection); once the announcements are processed the tables hold live connections only and a peer that went away leaves no entry, so the next request dials afresh (C17_settled_tables_live, C17_peer_gone_tables_clean); the variant that announces to the wrong channel is refuted (C17_wrong_channel_refuted). Tie: histories of requests in both directions, peers going away and coming back at new addresses, and stray replies against one real server and three real peers, after each event the size of the accepted table, the number of dialled connections as counted by the peers, and the class of what happened (handed to a live connection / dialled / dial failed / accepted / no client) compared with the extracted model. Responders answer three requests of every scenario with a 640 000-byte reply; at the end of every scenario the node and the responders leave (tear-down must not crash). The event-level runs judge on their own that a pending request whose reply has arrived returns that reply even when its caller starts waiting only afterwards; a request and a reply whose every field is at its default (empty payload) are part of the fault-free scenarios.",
 }
 for _k, _v in EXTRA_TEXT.items():
     CHECKS[_k]["text"] += " " + _v
